@@ -1,15 +1,18 @@
 #!/bin/bash
-# usage: tools/scratch_seed.sh <seed name> [check nums...]   -- run checks against a scratch copy of HEAD + seeded patch (does not touch /repo)
+# usage: tools/scratch_seed.sh <seed name|base> [check nums...]
+#   runs the checks against a scratch copy of /repo HEAD + the seeded patch (VERIF_REPO; /repo itself is not touched), 10 checks in parallel
 NAME=$1; shift
 D=/tmp/scr/$NAME
 rm -rf $D; mkdir -p $D
 git -C /repo archive HEAD src | tar -x -C $D
 if [ "$NAME" != base ]; then (cd $D && patch -p1 -s < /verif/seeded/$NAME/patch.diff) || exit 9; fi
-mkdir -p /tmp/scr/ev_$NAME /tmp/scr/rp_$NAME
+mkdir -p /tmp/scr/ev_$NAME /tmp/scr/rp_$NAME /tmp/scr/out_$NAME
 cd /verif
 CH=${@:-01 02 03 04 05 06 07 08 09 10 11 12 13 14 15 16 17 18 19 20}
+export NAME D
+echo $CH | tr ' ' '\n' | xargs -P 10 -I{} bash -c 'VERIF_REPO=$D VERIF_EVIDENCE_DIR=/tmp/scr/ev_$NAME VERIF_REPLAY_DIR=/tmp/scr/rp_$NAME /venv/bin/python -m checks.c{} > /tmp/scr/out_$NAME/{}.out 2>&1; echo $? > /tmp/scr/out_$NAME/{}.rc'
 for n in $CH; do
-  out=$(VERIF_REPO=$D VERIF_EVIDENCE_DIR=/tmp/scr/ev_$NAME VERIF_REPLAY_DIR=/tmp/scr/rp_$NAME /venv/bin/python -m checks.c$n 2>&1); rc=$?
-  if [ $rc -ne 0 ]; then echo "C$n rc=$rc"; echo "$out" | grep -A1 -E "VIOLATION|ANALYSIS-ERROR" | cut -c1-600; fi
+  rc=$(cat /tmp/scr/out_$NAME/$n.rc)
+  if [ "$rc" != 0 ]; then echo "C$n rc=$rc"; grep -A1 -E "VIOLATION|ANALYSIS-ERROR" /tmp/scr/out_$NAME/$n.out | cut -c1-600; fi
 done
 echo "[done $NAME]"
